@@ -1124,7 +1124,8 @@ class Run:
             k = rng.choice([1, 2, 2, 3, 3, 4, 5])
             parents: list[int | None] = [None if (j == 0 or rng.random() < 0.25) else rng.randrange(j) for j in range(k)]
             if i == 0:
-                parents = [None, 0]
+                parents = [None, 0]  # hand-written first case: parent touched before its child
+            k = len(parents)  # (the identification below scans range(k): it must cover every class of the forest)
             touches = [rng.randrange(k) for _ in range(rng.choice([1, 2, 3, 4, 6]))]
             if i == 0:
                 touches = [0, 1, 1, 0]
